@@ -184,6 +184,13 @@ func wireEncode(v *wireVec) (*wireCase, error) {
 		if ms_(cfg, "which") == "not_remote_ip" {
 			c.module = "not"
 			c.cfg = []map[string]any{{"remote_ip": inner}}
+		} else if ms_(cfg, "which") == "not_split" {
+			c.module = "not"
+			sets := []map[string]any{}
+			for _, r := range mlist(cfg, "ranges") {
+				sets = append(sets, map[string]any{"remote_ip": map[string]any{"ranges": []any{r}}})
+			}
+			c.cfg = sets
 		} else {
 			c.module = "remote_ip"
 			c.cfg = inner
@@ -233,6 +240,12 @@ func wireEncode(v *wireVec) (*wireCase, error) {
 				if s := ms_(rm, "type"); s != "" {
 					o["type"] = s
 				}
+				if s := ms_(rm, "name_regexp"); s != "" {
+					o["name_regexp"] = s
+				}
+				if s := ms_(rm, "type_regexp"); s != "" {
+					o["type_regexp"] = s
+				}
 				out = append(out, o)
 			}
 			return out
@@ -272,7 +285,22 @@ type countConn struct {
 func (c *countConn) Read(p []byte) (int, error) { c.reads++; return c.ScriptConn.Read(p) }
 
 // evalPrefix evaluates the real matcher on the first n bytes of stream, preloaded through real prefetch rounds.
-func evalPrefix(m layer4.ConnMatcher, wc *wireCase, stream []byte, n int, netw string, chunk int) (verdict string, alloc uint64, pure bool) {
+// form 0: the matcher alone in a matcher set; form 1: OR of two matcher sets, the second one answering a definite no
+// (MatcherSets.AnyMatch); form 2: AND with a matcher that reads one byte and says yes before it (the set must rewind
+// between its matchers). All three mean the same; the route-level combinators are part of what C06 speaks about.
+type wireYes struct{}
+
+func (wireYes) Match(cx *layer4.Connection) (bool, error) {
+	var b [1]byte
+	_, _ = cx.Read(b[:])
+	return true, nil
+}
+
+type wireNo struct{}
+
+func (wireNo) Match(*layer4.Connection) (bool, error) { return false, nil }
+
+func evalPrefix(m layer4.ConnMatcher, wc *wireCase, stream []byte, n int, netw string, chunk int, form int) (verdict string, alloc uint64, pure bool) {
 	rec := vh.NewRecorder(stream)
 	sc := &vh.ScriptConn{Rec: rec, Slen: n, EndKind: "eof", Start: time.Now(), Unit: time.Hour}
 	if chunk > 0 && netw == "tcp" {
@@ -312,7 +340,17 @@ func evalPrefix(m layer4.ConnMatcher, wc *wireCase, stream []byte, n int, netw s
 				verdict = "P"
 			}
 		}()
-		ok, err := layer4.MatcherSet{m}.Match(cx)
+		var ok bool
+		var err error
+		switch form {
+		case 1:
+			sets := layer4.MatcherSets{{m}, {wireNo{}}}
+			ok, err = sets.AnyMatch(cx)
+		case 2:
+			ok, err = layer4.MatcherSet{wireYes{}, m}.Match(cx)
+		default:
+			ok, err = layer4.MatcherSet{m}.Match(cx)
+		}
 		switch {
 		case errors.Is(err, layer4.ErrConsumedAllPrefetchedBytes):
 			verdict = "M"
@@ -450,19 +488,20 @@ func init() {
 				if v.Proto == "quic" {
 					// the QUIC matcher gives its embedded listener 100 ms of wall-clock time: a "no" of a starved
 					// process is not a verdict; ask again (a datagram that must not match never says yes)
-					eval = func(m layer4.ConnMatcher, wc *wireCase, stream []byte, n int, netw string, chunk int) (string, uint64, bool) {
-						ver, alloc, pure := evalPrefix(m, wc, stream, n, netw, chunk)
+					eval = func(m layer4.ConnMatcher, wc *wireCase, stream []byte, n int, netw string, chunk int, form int) (string, uint64, bool) {
+						ver, alloc, pure := evalPrefix(m, wc, stream, n, netw, chunk, form)
 						for try := 0; try < 2 && ver == "N" && n == len(stream) && ms_(v.Msg, "kind") == "initial"; try++ {
-							ver, alloc, pure = evalPrefix(m, wc, stream, n, netw, chunk)
+							ver, alloc, pure = evalPrefix(m, wc, stream, n, netw, chunk, form)
 						}
 						return ver, alloc, pure
 					}
 				}
-				ver, alloc, pure := eval(m, wc, stream, n, v.Net, chunk)
+				ver, alloc, pure := eval(m, wc, stream, n, v.Net, chunk, 0)
 				ver2, pure2 := ver, pure
 				if alloc <= 16<<20 {
 					var alloc2 uint64
-					ver2, alloc2, pure2 = eval(m, wc, stream, n, v.Net, 0)
+					// the repetition goes through an equivalent route-level combination
+					ver2, alloc2, pure2 = eval(m, wc, stream, n, v.Net, 0, 1+v.Gid%2)
 					if alloc2 < alloc {
 						// the counter is process-wide: the smaller of two evaluations excludes background noise
 						alloc = alloc2
